@@ -315,14 +315,27 @@ def _backend_maps(ctx: Context) -> None:
     for f in targets:
         if any(isinstance(s, ast.Raise) and "NotImplementedError" in ast.unparse(s) for s in f.node.body):
             continue
-        withs = [n for n in own_nodes(f.node) if isinstance(n, (ast.With, ast.AsyncWith)) and esc._map_of(n.items[0], ECtx(f)) is not None]
+        withs = [n for n in own_nodes(f.node) if isinstance(n, (ast.With, ast.AsyncWith)) and any(esc._map_of(it, ECtx(f)) is not None for it in n.items)]
+        # a timeout scope raises from its own exit: it must lie INSIDE the mapping scope, not beside / around it
+        for n in own_nodes(f.node):
+            if isinstance(n, (ast.With, ast.AsyncWith)):
+                for i, it in enumerate(n.items):
+                    ce = it.context_expr
+                    if isinstance(ce, ast.Call) and (chain(ce.func) or [""])[-1] in ("fail_after", "move_on_after"):
+                        mapped_before = any(esc._map_of(prev, ECtx(f)) is not None for prev in n.items[:i])
+                        mapped_outside = any(esc._map_of(oi, ECtx(f)) is not None for ow in _anc(n) if isinstance(ow, (ast.With, ast.AsyncWith)) for oi in ow.items)
+                        okm = mapped_before or mapped_outside
+                        rep.ob("C15.R5", fkey("backend", f, f"timeout-scope-inside-map:{norm(ce)}"), okm, where(f, ce),
+                               "the timeout scope lies inside the map_exceptions scope" if okm else
+                               f"`{ast.unparse(ce)}` is not enclosed by map_exceptions (its TimeoutError is raised when the timeout scope exits, after the mapping scope has already exited): "
+                               "a timed-out operation raises the runtime's bare TimeoutError to the caller")
         if not withs:
             rep.ob("C15.R5", fkey("backend", f, "map_exceptions"), False, where(f), "backend operation has no map_exceptions scope: library exceptions would reach the caller raw")
             continue
         tmo, err = FAMILY[f.name]
         for w in withs:
             nmaps += 1
-            pairs = esc._map_of(w.items[0], ECtx(f)) or []
+            pairs = next((p_ for p_ in (esc._map_of(it, ECtx(f)) for it in w.items) if p_ is not None), [])
             probs = []
             for k, v in pairs:
                 if v not in (tmo, err):
